@@ -36,6 +36,8 @@ REQUIRED_THEOREMS = [
     "TapkeeVerif.C12.stronglyConnected_perm",
     "TapkeeVerif.C12.connectivityDecision_perm",
     "TapkeeVerif.C12.no_hidden_state",
+    "TapkeeVerif.C12.statics_constant_or_accepted",
+    "TapkeeVerif.C12.acceptedStatics_all_present",
     "TapkeeVerif.C12.kernelDistance_translation",
     "TapkeeVerif.C12.lleLocalGram_translation",
     "TapkeeVerif.C12.localCenteredGram_translation",
@@ -982,8 +984,10 @@ def knn_judge(ctx, job, clouds, meta_binary):
 
 
 # ----------------------------------------------------------------------------- histories
-def gen_any_call(r, quick, observed=False):
+def gen_any_call(r, quick, observed=False, method=None):
     m = r.choice(DET + RANDOMISED) if not observed else (r.choice(DET) if r.chance(4, 5) else r.choice(["lmds", "lisomap", "spe", "rp"]))
+    if method is not None:
+        m = method
     n = r.choice([8, 12, 16, 24] if quick else [8, 12, 16, 24, 32, 48])
     if m in ("tsne", "ms"):
         n = r.choice([8, 12])
@@ -1017,6 +1021,130 @@ def gen_any_call(r, quick, observed=False):
     return c
 
 
+METHOD_HEADER = {
+    "klle": "kernel_locally_linear_embedding", "npe": "neighborhood_preserving_embedding",
+    "kltsa": "kernel_local_tangent_space_alignment", "lltsa": "linear_local_tangent_space_alignment",
+    "hlle": "hessian_locally_linear_embedding", "le": "laplacian_eigenmaps", "lpp": "locality_preserving_projections",
+    "dm": "diffusion_map", "isomap": "isomap", "lisomap": "landmark_isomap", "mds": "multidimensional_scaling",
+    "lmds": "landmark_multidimensional_scaling", "spe": "stochastic_proximity_embedding", "kpca": "kernel_pca",
+    "pca": "pca", "rp": "random_projection", "fa": "factor_analysis", "tsne": "tsne", "ms": "manifold_sculpting",
+}
+NUMERIC_KEYWORDS = ["k", "d", "w", "ts", "ratio", "it"]      # num_neighbors, target_dimension, gaussian_kernel_width,
+#                                     diffusion_map_timesteps, landmark_ratio, max_iteration (as the harness spells them)
+
+
+def vary_keyword(c, kw):
+    """the same call with ONE numeric keyword set to a different VALID value (None if the call does not carry the
+    keyword or has no second valid value)"""
+    if kw not in c or c[kw] is None:
+        return None
+    m, n, D = c["m"], len(c["X"]), len(c["X"][0])
+    v = dict(c)
+    if kw == "k":
+        lo = k_lower(m, c["d"])
+        alt = c["k"] + 1 if c["k"] + 1 <= n - 1 else c["k"] - 1
+        if alt < lo or alt == c["k"]:
+            return None
+        v["k"] = alt
+    elif kw == "d":
+        hi = min(3, D)
+        if m == "hlle":
+            hi = min(hi, 2)
+        if m in LOCAL_EIG:
+            hi = max(1, min(hi, D - 1))
+        if m in RANDOMISED:
+            hi = min(hi, 2)
+        alt = c["d"] + 1 if c["d"] + 1 <= hi else c["d"] - 1
+        if alt < 1 or (m in KNN and c.get("k", 99) < k_lower(m, alt)):
+            return None
+        v["d"] = alt
+    elif kw == "w":
+        mant, e = c["w"].split(":")
+        v["w"] = "%s:%d" % (mant, int(e) + 2)
+    elif kw == "ts":
+        v["ts"] = c["ts"] + 1
+    elif kw == "ratio":
+        v["ratio"] = "3/4" if c["ratio"] != "3/4" else "1/2"
+    elif kw == "it":
+        v["it"] = c["it"] + 2
+    return v
+
+
+def owners_of_header(rel):
+    """the methods whose implementation header (methods/<m>.hpp) reaches `rel` (a path relative to include/tapkee)
+    through #include <tapkee/...>; every method if none does or the header is not tapkee's (a shared utility)"""
+    mod = _load_tool("translate_statics")
+    scans = mod.scan_repo(vlib.REPO)
+    owners = [m for m, h in METHOD_HEADER.items()
+              if rel in mod.include_closure(scans, ["methods/%s.hpp" % h])]
+    if not owners or len(owners) == len(METHOD_HEADER):
+        return sorted(METHOD_HEADER), False
+    return owners, True
+
+
+def parameter_histories(ctx, binary, r, methods, reps, quick, why, cross=False):
+    """targeted history search: the observed call of method m is preceded by ONE call of the same method (with
+    `cross`: of every method in `methods`) on the same data in which one numeric keyword has a different valid value;
+    the observed result must be bit-identical to the same call in a fresh process.  A value of the first call frozen
+    in a static (`static const T x = f(parameter)`), a cache keyed too coarsely, a "last parameters" global show here.
+    returns the number of history-dependent results found"""
+    found = 0
+    for m in methods:
+        for rep in range(reps):
+            rr = r.fork()
+            obs = None
+            for _ in range(20):
+                c = gen_any_call(rr, quick, observed=True, method=m)
+                if c["m"] == m:
+                    obs = c
+                    break
+            if obs is None:
+                continue
+            ol = emb_line(obs)
+            rc2, out2, _ = run_history(ctx, binary, [ol])
+            ctx.cov["traces_validated_against_impl"] += 1
+            if rc2 != 0 or len(out2) != 1:
+                ctx.stat("trivial:param-history-observed-abort")
+                continue
+            for pm in (methods if cross else [m]):
+                for kw in NUMERIC_KEYWORDS:
+                    pre = vary_keyword(obs, kw)
+                    if pre is None:
+                        continue
+                    if pm != m:
+                        # the neighbouring method on the same data with the varied keyword (keys it does not know are ignored)
+                        pre = dict(pre, m=pm)
+                        if pm in RANDOMISED and "seed" not in pre:
+                            pre["seed"] = 4711
+                    pl = emb_line(pre)
+                    rc1, out1, _ = run_history(ctx, binary, [pl, ol])
+                    ctx.cov["traces_validated_against_impl"] += 1
+                    key = "param-history %s\n%s\n%s" % (kw, pl, ol)
+                    ctx.stat("param-history:%s:%s" % (m, kw))
+                    if rc1 != 0 or len(out1) != 2:
+                        ctx.count(key, False)
+                        ctx.stat("trivial:param-history-predecessor-abort")
+                        continue
+                    ctx.count(key, out2[0].startswith("ok ") and out1[0].startswith("ok "))
+                    if out1[-1] == out2[0]:
+                        ctx.stat("cmp-exact:param-history")
+                        continue
+                    found += 1
+                    label = m + ("/" + obs["nm"] if "nm" in obs else "")
+                    sig = "history:%s:param-%s" % (label, kw)
+                    ctx.stat("violations-seen:" + sig)
+                    if sig in ctx.c12_reported or ("history-param:" + m) in ctx.c12_reported:
+                        continue
+                    ctx.c12_reported.add(sig)
+                    ctx.c12_reported.add("history-param:" + m)
+                    ctx.fail(sig, "the result of an embed call (%s) depends on the %s an EARLIER %s call in the same process "
+                             "was given (%s=%s before, %s=%s now): not bit-identical to the same call in a fresh process%s"
+                             % (label, kw, pm, kw, pre[kw], kw, obs[kw], why),
+                             case="history\n  " + pl + "\n  observed: " + ol,
+                             detail={"after_history": out1[-1][:3000], "fresh": out2[0][:3000], "varied_keyword": kw})
+    return found
+
+
 def run_history(ctx, binary, lines):
     rc, out, err = ctx.run_impl(binary, lines, env=ENV, timeout=60)
     return rc, out, err
@@ -1027,6 +1155,16 @@ def histories(ctx, binary, r, count, quick):
         rr = r.fork()
         pre = [gen_any_call(rr, quick) for _ in range(rr.range(1, 6))]
         obs = gen_any_call(rr, quick, observed=True)
+        # two histories in three also contain a SIBLING of the observed call: same method, same data, one numeric
+        # keyword at a different valid value (a history whose calls differ from the observed one in method only cannot
+        # see a value that an earlier call of the same code froze or cached)
+        rs = rr.fork()
+        if rs.chance(2, 3):
+            kws = [kw for kw in NUMERIC_KEYWORDS if vary_keyword(obs, kw) is not None]
+            if kws:
+                kw = rs.choice(kws)
+                pre.insert(rs.below(len(pre) + 1), vary_keyword(obs, kw))
+                ctx.stat("history-sibling:" + kw)
         pl = [emb_line(c) for c in pre]
         ol = emb_line(obs)
         rc1, out1, err1 = run_history(ctx, binary, pl + [ol])
@@ -1083,11 +1221,46 @@ def _load_tool(name):
     return mod
 
 
+def read_accepted_statics():
+    """the hand-kept list `acceptedStatics` of Props/C12.lean, read from its source text (between the two markers)"""
+    src = open(os.path.join(vlib.LEAN_DIR, "TapkeeVerif", "Props", "C12.lean")).read()
+    a, b = src.index("-- BEGIN accepted"), src.index("-- END accepted")
+    return [tuple(m) for m in re.findall(r'\(\s*"([^"]*)"\s*,\s*"([^"]*)"\s*,\s*"([^"]*)"\s*\)', src[a:b])]
+
+
 def translate(ctx):
     mod = _load_tool("translate_statics")
     table = mod.generate(vlib.REPO, os.path.join(vlib.LEAN_DIR, "TapkeeVerif", "Gen", "Statics.lean"))
     ctx.extra["statics"] = {"objects": len(table), "mutable": len([o for o in table if o["mutable"]]),
                             "unknown": [o["name"] + "@" + o["file"] for o in table if o["role"] == "unknown"]}
+    # the obligation `statics_constant_or_accepted`, mirrored here so that its failure NAMES the object (the Lean build
+    # only says that `decide` failed) and the history leg knows which methods to aim at
+    classes = {}
+    for o in table:
+        if o["object"]:
+            classes[mod.cls_of(o)] = classes.get(mod.cls_of(o), 0) + 1
+    accepted = read_accepted_statics()
+    suspects = [o for o in table if o["object"] and mod.cls_of(o) != "constant" and mod.key_of(o) not in accepted]
+    suspects += [o for o in table if not mod.accounted(o) and o not in suspects]
+    stale = [k for k in accepted if not any(o["object"] and mod.key_of(o) == k for o in table)]
+    ctx.extra["statics"].update({"classes": classes, "accepted": len(accepted), "stale_accepted": ["%s:%s:%s" % k for k in stale],
+                                 "unaccepted": ["%s@%s:%d [%s]" % (o["name"], o["file"], o["line"], o["scope"]) for o in suspects]})
+    ctx.c12_suspects = suspects
+    for o in suspects:
+        kind = ("`const`, but its initialiser is a run-time value: the FIRST call that reaches the declaration fixes it for the "
+                "whole process" if o["rtinit"] and not o["mutable"] else
+                "a use of hidden generator state on a deterministic path" if not o["object"] else
+                "mutable state that outlives a call" + (" (handed out by its function: a singleton)" if o["returned"] else ""))
+        ctx.broken("statics:%s:%s:%s" % (o["file"], o["scope"], o["name"]),
+                   "TapkeeVerif.C12.statics_constant_or_accepted / no_hidden_state",
+                   "object of static storage duration `%s` (%s:%d, in %s; declared `%s`) is neither a constant nor in the accepted "
+                   "list of Props/C12.lean — %s.  An embed result may depend on the calls made before it"
+                   % (o["name"], o["file"], o["line"], o["scope"] or "namespace/class scope", o["decl"][:120], kind),
+                   detail={"object": {k: o[k] for k in ("name", "file", "line", "scope", "decl", "type", "const", "rtinit",
+                                                        "returned", "role", "det")}})
+    for k in stale:
+        ctx.broken("statics-stale:%s:%s:%s" % k, "TapkeeVerif.C12.acceptedStatics_all_present",
+                   "accepted static object %s:%s:%s is no longer in the source: remove it from acceptedStatics (Props/C12.lean)" % k)
     # the scanner's own regression snippets (thread_local, lambda-local statics, class-template members, mutable
     # members of const statics, inline variables, rand() in a deterministic stage; harmless constants)
     wrong = mod.selftest(vlib.REPO)
@@ -1192,11 +1365,33 @@ def correspond(ctx):
     histories(ctx, binary, r.fork(), 90 if quick else 2500, quick)
     ctx.log("histories done")
 
+    # 4b. parameter histories: the same method called twice with ONE numeric keyword changed, vs a fresh process
+    rp_ = r.fork()
+    parameter_histories(ctx, binary, rp_.fork(), sorted(METHOD_HEADER), 1 if quick else 12, quick, "")
+    # … and, when the static-object obligation broke, aimed at the methods that include the touched header: more
+    # repetitions, and every owner also as the PRECEDING method (a static in a shared routine is shared by its callers)
+    done = set()
+    for o in getattr(ctx, "c12_suspects", []):
+        if o["file"] in done:
+            continue
+        done.add(o["file"])
+        owners, narrowed = owners_of_header(o["file"])
+        ctx.log("static object %s@%s not accepted: targeted history search on %s" % (o["name"], o["file"], ",".join(owners)))
+        nfound = parameter_histories(
+            ctx, binary, rp_.fork(), owners, (3 if quick else 12) if narrowed else 1, quick,
+            " (search directed by the unaccepted static object `%s` at %s:%d)" % (o["name"], o["file"], o["line"]),
+            cross=narrowed and len(owners) <= 4)
+        ctx.extra.setdefault("statics", {}).setdefault("targeted_search", []).append(
+            {"object": o["name"] + "@" + o["file"], "methods": owners, "history_dependent_results": nfound})
+    ctx.log("parameter histories done")
+
     ctx.cov["rule"] = (
         "metamorphic pairs of public-API embed calls for the 13 deterministic methods x {perm, rigid(+translation), "
         "scale(MDS/Isomap/KPCA/PCA)} x 3 neighbour searches on 4 data classes (generic dyadic, lattice with ties, "
         "unequal clusters + outliers with check_connectivity, duplicates), N in %s; histories of 1..6 preceding calls "
-        "(all 20 methods, invalid parameters, logger toggles, randomized solver) vs a fresh process; exact-mode "
+        "(all 20 methods, invalid parameters, logger toggles, randomized solver; two in three with a sibling of the "
+        "observed call = same method and data, one numeric keyword changed) vs a fresh process; parameter histories (each "
+        "of the 19 parameterised methods after itself with each of k/d/w/ts/ratio/it changed, vs a fresh process); exact-mode "
         "pre-matrix cases (N a power of two, integer data); internal stages is_connected / centerMatrix / "
         "sparse_matrix_from_triplets vs the model.  non-trivial = at least one comparison at distance or pre-matrix "
         "level was decided (not both-exception, not knn-boundary-tie, not relative eigengap < 2^-8); distinct by case text"
